@@ -26,8 +26,10 @@ _XSD_SNIPPETS = {specific_implementations.ImplementationKey("root_element.xml"):
                  Stripped(XSD_ROOT_ELEMENT)}
 
 
-def check_schema_generators(name: str, ops: List[int], orders: List[bool], consts: List[Any]) -> str:
-    """The C15 templates with symbolic comparison constants: inference and both schema generators return, never raise."""
+def check_schema_generators(name: str, ops: List[int], orders: List[bool], consts: List[Any], xsd: bool = False, lo: int = -2,
+                            hi: int = 8) -> str:
+    """The C15 templates with symbolic comparison constants: inference and both schema generators return, never raise.
+    ``xsd``: the XSD generator instead (on realized constants, see _xsd_on_realized)."""
     st, slots, originals = c15.load(name)
     for i, cmp_node in slots.items():
         len_call, const_node = originals[i]
@@ -38,11 +40,11 @@ def check_schema_generators(name: str, ops: List[int], orders: List[bool], const
         else:
             cmp_node.left, cmp_node.right = const_node, len_call
     outcome = []
-    for label, call in (
-            ("infer_constraints_by_class", lambda: infer_for_schema.infer_constraints_by_class(symbol_table=st)),
-            ("jsonschema.generate", lambda: jsonschema_main.generate(symbol_table=st, spec_impls=_JSON_SNIPPETS,
-                                                                    fix_pattern=jsonschema_main.fix_pattern_for_utf16)),
-            ("xsd._generate", lambda: _xsd_on_realized(st, slots, originals, consts))):
+    calls = [("xsd._generate", lambda: _xsd_on_realized(st, slots, originals, consts, lo, hi))] if xsd else [
+        ("infer_constraints_by_class", lambda: infer_for_schema.infer_constraints_by_class(symbol_table=st)),
+        ("jsonschema.generate", lambda: jsonschema_main.generate(symbol_table=st, spec_impls=_JSON_SNIPPETS,
+                                                                fix_pattern=jsonschema_main.fix_pattern_for_utf16))]
+    for label, call in calls:
         try:
             result, errors = call()
         except Exception as e:  # noqa
@@ -54,11 +56,11 @@ def check_schema_generators(name: str, ops: List[int], orders: List[bool], const
     return "/".join(outcome)
 
 
-def _xsd_on_realized(st: Any, slots: Any, originals: Any, consts: List[Any]) -> Any:
+def _xsd_on_realized(st: Any, slots: Any, originals: Any, consts: List[Any], lo: int, hi: int) -> Any:
     """xsd._generate serializes and re-parses XML (C accelerators, expat): the constants are realized first -- the solver
     enumerates them -- and the generator runs concretely."""
-    from vf.common import realize, untraced
-    concrete = [realize(c) for c in consts]
+    from vf.common import pin_int, untraced
+    concrete = [pin_int(c, lo, hi) if i in slots else 0 for i, c in enumerate(consts)]
     for i in slots:
         originals[i][1].value = concrete[i]
     return untraced(lambda: xsd_main._generate(symbol_table=st, spec_impls=_XSD_SNIPPETS))
@@ -79,7 +81,7 @@ def make_harness(params: Dict[str, Any]):
                 else:
                     assume(params["lo"] <= consts[i] <= params["hi"])
                     orders.append(True if orders_in[i] else False)
-            return check_schema_generators(name, fixed_ops, orders, consts)
+            return check_schema_generators(name, fixed_ops, orders, consts, xsd=bool(params.get("xsd")), lo=params["lo"], hi=params["hi"])
 
         return harness
     # drivers: the C03 harness (its oracle includes 'no exception'), with both kinds of write failure
@@ -97,9 +99,11 @@ def shards(tier: str) -> List[Dict[str, Any]]:
             combos = [c for c in combos if c in ([0, 0, 0], [0, 2, 4], [4, 4, 0], [2, 0, 4], [4, 2, 2], [0, 4, 4])]
         lo, hi = (-1, 3) if tier == "quick" else (-2, 8)
         for ops in combos:
-            out.append({"name": f"schema-generators:{name},ops=" + " ".join(c15.OP_NAMES[o] for o in ops[:k]),
-                        "params": {"kind": "schema", "template": name, "slots": k, "ops": ops, "lo": lo, "hi": hi},
-                        "budget_s": 120 if tier == "quick" else 900, "per_path_timeout": 60})
+            for xsd in (False, True):
+                out.append({"name": ("xsd-generator:" if xsd else "inference+jsonschema:") + f"{name},ops=" +
+                                    " ".join(c15.OP_NAMES[o] for o in ops[:k]),
+                            "params": {"kind": "schema", "template": name, "slots": k, "ops": ops, "lo": lo, "hi": hi, "xsd": xsd},
+                            "budget_s": 300 if tier == "quick" else 900, "per_path_timeout": 60})
     for target in c03.LANG_TARGETS + c03.SCHEMA_TARGETS:
         out.append({"name": f"driver:{target}", "params": {"kind": "driver", "c03": {"kind": "target", "target": target, "lens": [1],
                                                                                      "nested": False}},
@@ -159,5 +163,5 @@ def describe(tier: str) -> Dict[str, Any]:
                    "literal functions (C19)",
         "stubs": ["(a) IR-level holes as in C15; (b) step stubs and in-memory file system as in C03; (c) none"],
         "assumptions": [],
-        "rule": "one shard per template and comparator combination, one per driver; one concrete evaluation per (model, target)",
+        "rule": "two shards per template and comparator combination (inference + jsonschema symbolically; XSD on constants the solver enumerates), one per driver; one concrete evaluation per (model, target)",
     }
